@@ -32,7 +32,10 @@ def expected : JParam → Option SqlVal
       | none => none).map .blob
   | .obj => none
 
-/-- Every JSON parameter is bound to SQLite with the same type and value: 64-bit integers as
+/-- (`expected` is a DISPATCH TABLE with the shape of `makeParameter`'s cases; the specification proper
+is the harness oracle, which knows class and value of every generated parameter independently and
+checks them against typeof/hex/quote on real SQLite.)
+Every JSON parameter is bound to SQLite with the same type and value: 64-bit integers as
 INTEGER with the same number (full range), other numbers as REAL with the same double,
 booleans as INTEGER 1/0, null as NULL, strings as TEXT with the same characters unless
 `ParseHex` accepts them (then BLOB with the decoded bytes), arrays of 0..255 as BLOB with
@@ -475,6 +478,27 @@ theorem readback_lossless_partial (textTyped blobArray : Bool) (v : SqlVal)
       exact ⟨_, rfl, rfl⟩
   | null => exact ⟨_, rfl, rfl⟩
 
+/-- the exclusion is EXACT: every excluded input really is lossy - no JSON value is returned from which
+the stored value is recovered (so `readback_lossless_partial` cannot be strengthened) -/
+theorem excluded_exact (textTyped blobArray : Bool) (v : SqlVal) (h : excluded textTyped v = true) :
+    ¬ ∃ j, readback .plain textTyped blobArray v = some j ∧ decode j = some v := by
+  rintro ⟨j, h1, h2⟩
+  cases v with
+  | integer z => simp [excluded] at h
+  | text t => simp [excluded] at h
+  | null => simp [excluded] at h
+  | real f =>
+    cases f with
+    | fin tok => simp [excluded] at h
+    | inf n => simp [readback, drv, normalize, encode] at h1
+  | blob bs =>
+    simp only [excluded, Bool.and_eq_true, Bool.not_eq_true', List.isEmpty_eq_false_iff] at h
+    obtain ⟨ht, hne⟩ := h
+    subst ht
+    simp only [readback, drv, normalize, encode, if_true, Option.some.injEq] at h1
+    subst h1
+    simp [decode, hne] at h2
+
 /-- per storage class and declared type: integers (full 64-bit range and beyond), finite reals,
 text and NULL are lossless from EVERY column type; blobs from every column whose declared type
 is not text-like (INTEGER, REAL, BLOB, NUMERIC, …), in both blob encodings -/
@@ -532,6 +556,30 @@ theorem readColumn_lossless_partial (t : ColType) (blobArray : Bool) (first : Sq
     subst this
     exact readback_lossless_partial (isTextTy (laterType t first)) blobArray a (h2 a hmem.1)
 
+theorem excluded_mono (t : ColType) (first w : SqlVal) (h : excluded (isTextTy t) w = false) :
+    excluded (isTextTy (laterType t first)) w = false := by
+  cases w with
+  | blob bs =>
+    cases t with
+    | empty =>
+      simp only [isTextTy, excluded, Bool.true_and] at h
+      simp [excluded, h]
+    | textLike => simpa [laterType, populate] using h
+    | other => simp [laterType, populate, isTextTy, excluded]
+  | real f => cases f <;> simp_all [excluded]
+  | integer z => rfl
+  | text s => rfl
+  | null => rfl
+
+/-- stated with the column's DECLARED type alone: rows not excluded by the declared type are lossless in
+every row (the first-row rule only ever helps: `untyped_numeric_first_row_keeps_later_blobs`) -/
+theorem readColumn_lossless_declared (t : ColType) (blobArray : Bool) (first : SqlVal) (rest : List SqlVal)
+    (h : ∀ v ∈ first :: rest, excluded (isTextTy t) v = false) :
+    ∀ p ∈ (first :: rest).zip (readColumn .plain t blobArray (first :: rest)),
+      ∃ j, p.2 = some j ∧ decode j = some p.1 :=
+  readColumn_lossless_partial t blobArray first rest (h first (by simp))
+    (fun w hw => excluded_mono t first w (h w (by simp [hw])))
+
 /-- In a column WITHOUT declared type (untyped column, expression) whose first row holds an INTEGER or
 a REAL, every later BLOB is returned as a blob, losslessly: the type string has become "integer" /
 "real". This is the code that exists (populateEmptyTypes + the per-value isTextType check). -/
@@ -557,6 +605,18 @@ theorem untyped_other_first_row_witness :
     readColumn .plain .empty false [.text "a", .blob [104, 105]] = [some (.str "a"), some (.lossyStr [104, 105])] ∧
     readColumn .plain .empty false [.blob [1], .blob [2]] = [some (.lossyStr [1]), some (.lossyStr [2])] ∧
     readColumn .plain .empty false [.integer 7, .blob [0, 255, 65]] = [some (.num 7), some (.b64 [0, 255, 65])] := by
+  decide
+
+/-- THE FULL STATEMENT "the column's declared type alone decides how every row is read" (false: the type
+string of an untyped column moves after the first row) -/
+def readColumn_uses_declared_type_only_full : Prop :=
+  ∀ (t : ColType) (blobArray : Bool) (vals : List SqlVal),
+    readColumn .plain t blobArray vals = vals.map (readback .plain (isTextTy t) blobArray)
+
+theorem readColumn_uses_declared_type_only_full_is_false : ¬ readColumn_uses_declared_type_only_full := by
+  intro h
+  have := h .empty false [.integer 7, .blob [0, 255, 65]]
+  revert this
   decide
 
 /-! ### the associative form -/
@@ -603,6 +663,11 @@ theorem associative_equals_array (cols : List String) (vals : List JOut) (hn : c
     ∀ i (hi : i < cols.length), assocGet cols vals cols[i] = some (vals[i]'(by omega)) :=
   fun i hi => find_last_nodup cols vals i hn hl hi
 
+/-- THE FULL STATEMENT without the distinctness condition (false: `associative_duplicate_witness`) -/
+def associative_equals_array_full : Prop :=
+  ∀ (cols : List String) (vals : List JOut) (_ : vals.length = cols.length) (i : Nat) (hi : i < cols.length),
+    assocGet cols vals cols[i] = vals[i]?
+
 /-- a repeated column name loses the earlier column's value in the associative form (a JSON object
 cannot hold both) - `SELECT 1 AS a, 2 AS a` -/
 theorem associative_duplicate_witness :
@@ -627,9 +692,36 @@ theorem associative_row_lossless (cols : List String) (cells : List (Bool × Sql
   cases h1
   exact h2
 
+theorem associative_equals_array_full_is_false : ¬ associative_equals_array_full := by
+  intro h
+  have := h ["a", "a"] [.num 1, .num 2] rfl 0 (by decide)
+  revert this
+  decide
+
+/-! ### the encoder's result is a value -/
+
+/-- In the model an encoded result is a VALUE: what a batch of values encodes to is, position by
+position, what each of them encodes to on its own - whatever is encoded before or after it. The real
+encoder returns a byte slice; that the slice is not memory the encoder goes on to reuse (so that a
+response body cannot be overwritten by the next response encoded anywhere in the process) is what
+the run checks by holding EVERY marshalled result while the others are marshalled - sequentially,
+from 8 goroutines, and through the HTTP service with 8 concurrent clients. -/
+theorem encoded_results_are_values (ba : Bool) (before after : List Param) (p : Param) :
+    ((before ++ p :: after).map (encode ba))[before.length]? = some (encode ba p) := by
+  simp
+
 /-! ### the whole way: JSON parameter in, JSON value out -/
 
-/-- `makeParameter` never produces an infinite REAL (a literal that large is rejected) -/
+/-- a number literal that is no 64-bit integer and whose magnitude rounds to infinity is REJECTED
+(`json.Number.Float64` fails): this - not the shape of `Flt` - is why no infinite REAL comes from a parameter -/
+theorem overflowing_literal_rejected (lit tok : String) (h1 : parseInt10 lit = none)
+    (h2 : floatOverflows lit = true) : makeParameter (.num lit tok) = none := by
+  simp [makeParameter, h1, h2]
+
+/-- `makeParameter` never produces an infinite REAL. In the model this holds by construction (the only
+float a parameter yields is `.fin tok`); the fact behind it is `overflowing_literal_rejected`, and that
+Go's `Float64` never RETURNS an infinity without an error is checked by the run (1E400, -1e400,
+1.7976931348623159e308, a 310-digit integer). -/
 theorem makeParameter_never_infinite (j : JParam) (p : Param) (hp : makeParameter j = some p) (n : Bool) :
     bindParam p ≠ .real (.inf n) := by
   cases j with
